@@ -132,6 +132,45 @@ func pause(m, extra int) func(s *poolx.Session, w *poolx.World) (bool, []int) {
 	}
 }
 
+// giveup: m idle connections that have gone silent; one more query is written to one of them and its caller
+// gives up. The loop does not look at the context: the query is handed to further idle connections, but never
+// to more than the retry budget allows.
+func giveup(m int) func(s *poolx.Session, w *poolx.World) (bool, []int) {
+	return func(s *poolx.Session, w *poolx.World) (bool, []int) {
+		var qs []int
+		for i := 0; i < m; i++ {
+			s.Start(i)
+			s.WaitWritten(i, 0, wait)
+			qs = append(qs, i)
+		}
+		w.Release()
+		for i := 0; i < m; i++ {
+			s.Wait(i, wait)
+		}
+		s.Start(m)
+		s.WaitWritten(m, 0, wait)
+		s.Cancel(m)
+		s.Wait(m, wait)
+		return false, append(qs, m)
+	}
+}
+
+// replyThenEOF: every connection answers one query and closes right behind the reply; the caller is kept
+// between its write and its wait until the client has read both the reply and the EOF. The reply was received:
+// the query succeeds (on a connection opened for it nothing failed; on a reused one nothing is re-sent).
+func replyThenEOF(n int) func(s *poolx.Session, w *poolx.World) (bool, []int) {
+	return func(s *poolx.Session, w *poolx.World) (bool, []int) {
+		s.SetWrittenGate(func(int) { w.WaitNoStale(wait) })
+		defer s.SetWrittenGate(nil)
+		qs := make([]int, n)
+		for i := 0; i < n; i++ {
+			qs[i] = i
+			s.Run(i, wait)
+		}
+		return false, qs
+	}
+}
+
 func repeatPlan(p poolx.ConnPlan, n int) []poolx.ConnPlan {
 	out := make([]poolx.ConnPlan, n)
 	for i := range out {
@@ -210,6 +249,11 @@ func main() {
 			}
 		}
 		if !pl {
+			// the caller gives up while its query waits on a pooled connection: attempts made after that still count
+			for _, m := range []int{5, 7, 9} {
+				do(fmt.Sprintf("cat:reuse:giveup-%d-idle", m), "m idle connections that stay silent; the caller of one more query gives up after it was written",
+					scen{pipeline: false, maxCq: 1, plans: repeatPlan(poolx.ConnPlan{Dial: "ok", Answer: 1, After: "silent", HoldAll: true}, m), run: giveup(m)})
+			}
 			// a pooled connection whose server went away without FIN/RST: the write succeeds, nothing comes back,
 			// the per-query deadline ends the attempt with a timeout error — which is retried like any other
 			// failure of a connection that was already in use
@@ -237,6 +281,9 @@ func main() {
 						run: inflight(k), must: func(q int) bool { return q > 0 }, extra: 1})
 			}
 		}
+		do("cat:"+tn+":reply-then-eof-before-wait", "every connection answers once and closes behind the reply; callers held between write and wait until the client saw both",
+			scen{pipeline: pl, maxCq: 8, plans: repeatPlan(poolx.ConnPlan{Dial: "ok", Answer: 1, After: "close"}, 14), run: replyThenEOF(12),
+				must: func(int) bool { return true }})
 		do("cat:"+tn+":dial-error", "the first dial fails, the next works",
 			scen{pipeline: pl, maxCq: 8, plans: []poolx.ConnPlan{{Dial: "err"}, {Dial: "ok", After: "healthy"}}, run: seq(3)})
 		do("cat:"+tn+":dial-hang-cancel", "the dial hangs; the caller gives up",
